@@ -458,3 +458,6 @@ func TestC19(t *testing.T) {
 		}
 	})
 }
+
+// FuzzC19 is the native coverage-guided supplement of the generated part (thorough tier only).
+func FuzzC19(f *testing.F) { fuzzProperty(f, TestC19) }
